@@ -211,6 +211,30 @@ def check_props(pid: str, wd: Path) -> dict:
     return res
 
 
+def coqchk_step(run, pid: str, wd: Path, timeout=1500) -> dict:
+    """Thorough tier: re-check the property theorems' .vo closure with the independent checker and record
+    the axioms it reports.  A failure is a broken proof obligation."""
+    vo = wd / f"Props_{pid}.vo"
+    if not vo.exists():
+        return {"ran": False, "reason": "props not compiled"}
+    t0 = time.time()
+    r = subprocess.run(["timeout", str(timeout), "coqchk", "-silent", "-o", "-Q", str(COQ / "theories"), "Pyrefact",
+                        "-Q", str(COQ / "generated"), "PyrefactGen", "-Q", str(wd), "", f"Props_{pid}"],
+                       capture_output=True, text=True, cwd=wd)
+    out = r.stdout + r.stderr
+    m = re.search(r"\* Axioms:\s*(.*?)\n\s*\n", out, flags=re.S)
+    axioms = m.group(1).strip() if m else "?"
+    res = {"ran": True, "rc": r.returncode, "axioms": axioms, "wall_s": round(time.time() - t0, 1),
+           "unsafe": [l.strip() for l in out.splitlines() if l.startswith("* ") and "<none>" not in l
+                      and "Theory" not in l and "Axioms" not in l]}
+    run.coverage["coqchk"] = res
+    if r.returncode != 0 or (axioms not in ("<none>",) and not set(axioms.split()) <= ALLOWED_AXIOMS):
+        run.violation({"kind": "proof", "file": f"coq/props/{pid}.v", "coqchk": out[-3000:],
+                       "explanation": "coqchk (independent checker) rejects the property theorems' closure or "
+                                      "reports axioms that are not in the trusted base"}, False)
+    return res
+
+
 def run_case_files(files: list[Path], timeout=900) -> dict[Path, tuple[int, str]]:
     """Compile generated case files in parallel; returns per-file (rc, output)."""
     from concurrent.futures import ThreadPoolExecutor
